@@ -13,7 +13,7 @@ from vf.runner import REPO_SRC, ROOT
 
 LEVEL = "exploration"
 RULE = (
-    "history: Hypothesis command tree under the default (or bare) config and 2-6 (thorough <= 10) command lines drawn "
+    "history: Hypothesis command tree (some commands explicitly configured lenient) under the default (or bare) config and 2-6 (thorough <= 10) command lines drawn "
     "from {valid, wrong token, unnameable, undefined, partial, tail, surplus arguments, unknown option, ill-typed values, help, help "
     "<path>, help <path> <surplus / ill-typed>, <path> --help, <path> -h, --version}, some handlers raising, all run on ONE "
     "application object and each also on a freshly built identical application; shared-parser: the same with one "
@@ -132,7 +132,7 @@ def check_history(ctx, case, part="history"):
 @st.composite
 def history_case(draw, max_steps):
     cfgk = draw(st.sampled_from(["default", "default", "default", "bare"]))
-    tree = draw(gen_tree.tree_st(typed=True))
+    tree = draw(gen_tree.tree_st(typed=True, lenient=True))
     paths = [" ".join(p) for p in gen_tree.all_paths(tree, cfgk) if p != ["help"]]
     raise_paths = draw(st.lists(st.sampled_from(paths), max_size=2, unique=True)) if paths else []
     steps = []
